@@ -13,6 +13,12 @@ CHECKS = {
         note="Trusted: z3, CPython, the rsx engine (proxies, symre validated against re on rope's live patterns, loader validated by rope's own suite), the reference lexer (validated against tokenize at witnesses). Bounds and alphabets are listed in the evidence file; f-string replacement fields, CR line endings and LogicalLineFinder are outside this check.",
         design="§5 C14",
     ),
+    "C16": dict(
+        level="other",
+        text="Solver-decided, path-exhaustive within stated bounds: the real File.read, ChangeContents/project.do, file_data_to_unicode, unicode_to_file_data, read_str_coding and _find_coding run on symbolic file bytes (body of up to L symbolic characters incl. U+00E9 and newlines, every newline convention x coding line x final-newline combination, symbolic edit positions and inserted text); z3 decides per path that the bytes written equal the original bytes (rewrite) or exactly the encoding of the spliced text (edit) and that the text reads back equal. Holds for every input within the bounds; nothing is claimed beyond them.",
+        note="Trusted: z3, CPython, rsx (SymStr/SymBytes incl. its 1-2 byte UTF-8 model, symre), the in-memory fscommands stub. Assumes the file is valid in its declared encoding and uses one newline convention (the property's premise). Counterexamples are replayed on un-instrumented rope with the real file system.",
+        design="§5 C16",
+    ),
 }
 
 NOT_YET = "check not built yet (see DESIGN.md §5 for the planned decision procedure)"
